@@ -21,7 +21,7 @@ def run(m, chk):
         "np.zeros/ones/eye/empty without dtype=object, true division of two library integers) reaches a return value or a state write of the listed operations; no fixed-width integer dtype on those paths; on the polynomial "
         "paths of evaluation / insertion / elevation / splitting points are only used as `scalar * point` (point on the right) and `point + point`. Agreement of float and exact results to 1e-9 is not decided."
     )
-    chk.decides = ["E8: no library float reaches a sink of the exact entries", "FIXED-WIDTH", "MIN-POINT"]
+    chk.decides = ["E8: no library float reaches a sink of the exact entries", "FIXED-WIDTH", "MIN-POINT", 'MEMO-KEY', 'no truncated library float (int(float)) used as a value']
     chk.not_decided = ["float and exact runs agree to relative 1e-9", "conditioning", "values equal the mathematically exact result"]
     chk.assume("user `int / int` at the API surface is Python semantics, not a float introduced by the library")
     chk.assume("a true division is reported only when both operands are library integers on every path ('may be an integer' is not reported)")
